@@ -5,7 +5,7 @@
     exactly what BlockList.update_neighbours collects). *)
 From Coq Require Import List Bool Arith.
 From CB Require Import Model.Propagate Proofs.PropagateBasics Proofs.PropagateTerm Proofs.PropagateInv
-  Proofs.PropagateInit Proofs.PropagateFinal.
+  Proofs.PropagateInit Proofs.PropagateShort Proofs.PropagateFinal.
 Import ListNotations.
 
 (** coincidence is complete and symmetric: every wire of another block with the same end vertices is
@@ -40,6 +40,34 @@ Theorem C01_shared_edges_agree : C01_shared_edges_agree_stmt.
 Proof.
   intros bs oc on cs ws K R. destruct (run_ok_inv bs oc on cs ws K R) as (s & E1 & E2 & X1 & X2 & _).
   exists s. auto.
+Qed.
+
+(** whenever writing succeeds, wires of different blocks on the same two vertices carry the same
+    sequence of sections (counts per section), reversed when the wires run in opposite directions
+    (the repaired consistency check compares the whole gradings; payloads: C04) *)
+Definition C01_shared_edges_same_sections_stmt : Prop :=
+  forall bs o_coin o_nbrs cs ws,
+    oracle_ok bs o_coin o_nbrs = true -> run bs o_coin o_nbrs = Ok cs ws ->
+    exists s, final bs o_coin o_nbrs = Some s /\
+      forall w c, In w (all_wires (nblocks bs)) -> In c (all_wires (nblocks bs)) -> coincident bs w c = true ->
+        g s w = (if aligned bs c w then g s c else rev (g s c)).
+
+Lemma nl_eqb_eq l : forall m, nl_eqb l m = true -> l = m.
+Proof.
+  unfold nl_eqb. induction l as [|x l IH]; intros [|y m] H; simpl in *; try reflexivity; try discriminate.
+  apply andb_true_iff in H. destruct H as [Hl H]. apply andb_true_iff in H. destruct H as [Hx H].
+  apply Nat.eqb_eq in Hx. subst. f_equal. apply IH. rewrite Hl. exact H.
+Qed.
+
+Theorem C01_shared_edges_same_sections : C01_shared_edges_same_sections_stmt.
+Proof.
+  intros bs oc on cs ws K R. unfold run in R. rewrite K in R. simpl in R. unfold final.
+  destruct (propagate bs oc on (fuel0 bs) (grade_blocks bs oc (init bs)) (seq 0 (nblocks bs))) as [s | |]; try discriminate.
+  destruct (consistent bs s) eqn:C; [|discriminate]. exists s. split; [reflexivity|].
+  intros w c Vw Vc Cc. apply consistent_ga in C. unfold gradings_agree in C. rewrite forallb_forall in C.
+  destruct (vw_axis bs w Vw) as [Vx Hk]. specialize (C (w_axis w) Vx). unfold axis_agree in C.
+  rewrite forallb_forall in C. assert (In w (wires_of_axis (w_axis w))) as Hw by (apply in_wires_of_axis; auto).
+  specialize (C w Hw). rewrite forallb_forall in C. apply nl_eqb_eq. apply C. apply in_coin_set. auto.
 Qed.
 
 (** two chopped directions of one family that demand different counts: writing never succeeds, and
@@ -92,3 +120,4 @@ Qed.
 Print Assumptions C01_coincident_complete.
 Print Assumptions C01_shared_edges_agree.
 Print Assumptions C01_conflict_rejected.
+Print Assumptions C01_shared_edges_same_sections.
